@@ -89,6 +89,16 @@ func TransformModuleFilesToModel( //nolint:funlen,gocognit,cyclop
 			continue
 		}
 
+		// only a file with a module header gets the extensions initialized when parsed
+		if typeDefExtensions == nil {
+			transformErrors = multierror.Append(transformErrors, &ModuleTransformationSingleError{
+				Msg:  "file is not a module",
+				File: module.Name,
+			})
+
+			continue
+		}
+
 		for _, typeDef := range mdl.GetTypeDefinitions() {
 			_, extension := typeDefExtensions[typeDef.GetType()]
 			if slices.Contains(types, typeDef.GetType()) && !extension {
